@@ -29,6 +29,16 @@ def main(argv):
         obs.start()
     real_stdout = sys.stdout
     crashed = None
+
+    def emergency():
+        # the code under test keeps swallowing the budget exception: report what was recorded and leave
+        res = ctx.result()
+        res["lines"] = {}
+        res["crashed"] = "case CPU budget fired repeatedly; worker left through the emergency exit"
+        with open(out, "w") as f:
+            json.dump(res, f)
+        os._exit(0)
+    ctx.emergency = emergency
     try:
         with common.Quiet():
             mod.run_shard(ctx)
